@@ -23,6 +23,8 @@ type OracleC10 struct {
 	unbonding     time.Duration
 	prevStake     map[string]*big.Int // every actor's bonded stake at the end of the previous block
 	prevValJailed map[string]bool
+	prevMaxSel    uint64 // MaxSelectors at the end of the previous block (governance changes it in EndBlock, after the block's transactions)
+	havePrevMax   bool
 }
 
 type stakeTerm struct {
@@ -124,6 +126,11 @@ func (o *OracleC10) AfterBlock(c *Chain, b *BlockCtx) []*Violation {
 		}
 	}
 	params, _ := b.Ref.App.ReporterKeeper.Params.Get(v.ctx)
+	capInForce := params.MaxSelectors // the cap the block's transactions ran under
+	if o.havePrevMax {
+		capInForce = o.prevMaxSel
+	}
+	defer func() { o.prevMaxSel, o.havePrevMax = params.MaxSelectors, true }()
 
 	// ---- power of reports that are the first stake-relevant event of this block
 	firstStakeTx := len(b.Txs) * 100
@@ -262,8 +269,8 @@ func (o *OracleC10) AfterBlock(c *Chain, b *BlockCtx) []*Violation {
 						n++
 					}
 				}
-				if uint64(n) > params.MaxSelectors && curSel[string(signer)] == string(target) {
-					out = append(out, o.v(b.H, "structure", "Selectors", "selector-cap-exceeded", "after %s joined reporter %s it has %d selectors, cap %d", signer, target, n, params.MaxSelectors))
+				if uint64(n) > capInForce && curSel[string(signer)] == string(target) {
+					out = append(out, o.v(b.H, "structure", "Selectors", "selector-cap-exceeded", "after %s joined reporter %s it has %d selectors, cap %d", signer, target, n, capInForce))
 				}
 				o.count("joins_checked")
 				if i*100+mi <= firstStakeTx && !beginTouched {
